@@ -83,7 +83,11 @@ class C08(Check):
             if k % 5 == 2 and not plain and items:
                 # one branch starts with a map whose function raises on some records; the mux errors leave the tee and
                 # are dropped right behind it.  The other branches' values, waiting in the join, are not to be touched.
-                dirty = {'branch': rng.randrange(nb), 'vals': sorted(set(rng.sample(items, min(len(items), rng.randint(1, 3)))))}
+                # (only a branch without windows / groups of its own: what a mux error does while it travels through
+                # a context operator is not stated by any property)
+                flat = [j for j, b in enumerate(branches) if not any(n[0] in progs.CONTEXTS for _, n in progs.walk(b))]
+                if flat:
+                    dirty = {'branch': rng.choice(flat), 'vals': sorted(set(rng.sample(items, min(len(items), rng.randint(1, 3)))))}
             yield {'branches': branches, 'join': ['zip', 'merge', 'combine_latest'][(k // len(names)) % 3], 'ctx': ctx,
                    'ctx_node': CTX[ctx](rng) if CTX[ctx] else None, 'items': items, **({'dirty': dirty} if dirty else {})}
 
@@ -103,7 +107,7 @@ class C08(Check):
             real = branches
         tee = ['tee_map', join, real]
         out.tags += [ctx, join, 'branches=%d' % len(branches)]
-        if case.get('prelude') and progs.usable_prelude([tee], case['prelude']):
+        if case.get('prelude') and progs.usable_prelude([tee], case['prelude']) and ctx != 'plain':
             prelude_tags(dict(case, prelude=progs.usable_prelude([tee], case['prelude'])), out)
         if any(n[0] == 'tee_map' for b in branches for _, n in progs.walk(b)):
             out.tags.append('nested-tee')
